@@ -1,6 +1,7 @@
 """C02 — Queue, relay and boolean events complete exactly once and in order.
 
-Sub-workloads (index % 3):
+Sub-workloads (index % 4; the fourth, *players*, drives queue_relay_player / queue_event_player entries with several
+relays outstanding at once, released in generated orders):
   queue  : several queue events in flight on the real EventManager, handler sets mixing sync handlers, waiting handlers
            (clear after a generated virtual delay, or immediately), async-coroutine handlers and NESTED waiters (wait,
            post another queue event, clear in that one's callback).  Oracle: per post the recorded sequence must be
@@ -36,12 +37,12 @@ ASSUMPTIONS = [
 ]
 HORIZONS = {"after_last_clear_s": 10}
 TIERS = {
-    "quick": {"cases": 2400, "batch": 60, "case_timeout": 60},
-    "thorough": {"cases": 60000, "batch": 500, "case_timeout": 120},
+    "quick": {"cases": 3200, "batch": 80, "case_timeout": 60},
+    "thorough": {"cases": 80000, "batch": 500, "case_timeout": 120},
 }
 MIN_EVALS = {"quick": {"queue_sequence": 3000, "queue_callback_once": 1500, "no_enter_during_wait": 3000,
-                       "relay_fold": 1000, "boolean_stop": 300, "mode_queue_complete": 300}}
-SHRINK_KEYS = ["posts", "handlers"]
+                       "relay_fold": 800, "boolean_stop": 300, "mode_queue_complete": 300, "relay_player_complete": 1000}}
+SHRINK_KEYS = ["posts", "handlers", "ops"]
 
 EVENTS = ["q0", "q1", "q2"]
 DELAYS = [0.0, 0.001, 0.1, 0.1, 0.5, 1.0, 1.5, 3.0]
@@ -87,13 +88,34 @@ def _gen_modes(rng, tier):
     return {"kind": "modes", "modes": modes, "posts": posts}
 
 
+def _gen_players(rng, tier):
+    """Queue events blocked by queue_relay_player entries (machine-wide and in a mode) and posted by
+    queue_event_player entries; several relays outstanding at the same time, released in generated orders."""
+    relays = []
+    for i in range(rng.randint(2, 4)):
+        relays.append({"event": "qr%d" % i, "where": rng.choice(["machine", "machine", "mode"]),
+                       "pass_args": rng.random() < 0.5})
+    ops = []
+    for _ in range(rng.randint(3, 10)):
+        k = rng.random()
+        if k < 0.45:
+            ops.append(["post", rng.randrange(len(relays)), rng.choice(["direct", "qep"])])
+        elif k < 0.85:
+            ops.append(["done", rng.randrange(len(relays))])
+        else:
+            ops.append(["adv", rng.choice([0.0, 0.1, 1.0])])
+    return {"kind": "players", "relays": relays, "ops": ops}
+
+
 def gen_case(rng, tier, index):
-    k = index % 3
+    k = index % 4
     if k == 0:
         return _gen_queue(rng, tier)
     if k == 1:
         return _gen_relay(rng, tier)
-    return _gen_modes(rng, tier)
+    if k == 2:
+        return _gen_modes(rng, tier)
+    return _gen_players(rng, tier)
 
 
 def run_case(case):
@@ -101,7 +123,129 @@ def run_case(case):
         return _run_queue(case)
     if case["kind"] == "relay":
         return _run_relay(case)
+    if case["kind"] == "players":
+        return _run_players(case)
     return _run_modes(case)
+
+
+def _run_players(case):
+    from vlib.boot import VMachine, MpfCrash
+    clauses = {"relay_player_complete": 0, "relay_player_not_before_release": 0, "relay_player_tail_after_release": 0,
+               "queue_progress": 0}
+    obs = {"relay_posts": 0, "relays_outstanding_max": 0, "releases": 0, "qep_posts": 0}
+    viol = []
+
+    def V(clause, sig, **d):
+        if len(viol) < 20:
+            viol.append({"clause": clause, "sig": "C02:" + sig, "detail": d})
+
+    relays = case["relays"]
+    mcfg = {"modes": ["pm"], "queue_relay_player": {}, "queue_event_player": {}}
+    mode_cfg = {"mode": {"start_events": "pm_go", "stop_events": "pm_halt", "game_mode": False},
+                "queue_relay_player": {}}
+    for i, r in enumerate(relays):
+        entry = {"post": "%s_relayed" % r["event"], "wait_for": "%s_done" % r["event"], "pass_args": r["pass_args"]}
+        (mode_cfg if r["where"] == "mode" else mcfg)["queue_relay_player"][r["event"]] = entry
+        mcfg["queue_event_player"]["go_%s" % r["event"]] = {"queue_event": r["event"],
+                                                             "events_when_finished": "%s_finished" % r["event"]}
+    if not mode_cfg["queue_relay_player"]:
+        del mode_cfg["queue_relay_player"]
+    with VMachine(mcfg, modes={"pm": mode_cfg}) as vm:
+        m = vm.machine
+        ev = m.events
+        ev.post("pm_go")
+        vm.advance(0.1)
+        st = {"pid": 0}
+        open_posts = {i: [] for i in range(len(relays))}     # relay index -> [pid] not yet released
+        posts = {}
+        finished = {i: 0 for i in range(len(relays))}
+        for i, r in enumerate(relays):
+            def tail(i=i, **kwargs):
+                pid = kwargs.get("_pid")
+                P = posts.get(pid)
+                if P is not None:
+                    P["tail"] += 1
+                    clauses["relay_player_tail_after_release"] += 1
+                    if not P["released"]:
+                        V("relay_player_tail_after_release", "later_handler_ran_while_relay_wait_outstanding", pid=pid,
+                          event=relays[i]["event"])
+
+            def fin(i=i, **kwargs):
+                finished[i] += 1
+            ev.add_handler(r["event"], tail, priority=-1000)
+            ev.add_handler("%s_finished" % r["event"], fin)
+        try:
+            for op in case["ops"]:
+                if op[0] == "post":
+                    i = op[1] % len(relays)
+                    ename = relays[i]["event"]
+                    if op[2] == "qep":
+                        # posted by the queue_event_player: completion is observed through events_when_finished
+                        st["pid"] += 1
+                        pid = st["pid"]
+                        posts[pid] = {"i": i, "cb": 0, "released": False, "tail": 0, "qep": True, "fin0": finished[i]}
+                        open_posts[i].append(pid)
+                        obs["qep_posts"] += 1
+                        ev.post("go_%s" % ename)
+                    else:
+                        st["pid"] += 1
+                        pid = st["pid"]
+                        posts[pid] = {"i": i, "cb": 0, "released": False, "tail": 0, "qep": False}
+                        open_posts[i].append(pid)
+
+                        def cb(pid=pid, **kwargs):
+                            P = posts[pid]
+                            P["cb"] += 1
+                            clauses["relay_player_not_before_release"] += 1
+                            if not P["released"]:
+                                V("relay_player_not_before_release", "queue_callback_before_wait_cleared", pid=pid)
+                        ev.post_queue(ename, cb, _pid=pid)
+                    obs["relay_posts"] += 1
+                    vm.advance(0.02)
+                    n = sum(len(v) for v in open_posts.values())
+                    obs["relays_outstanding_max"] = max(obs["relays_outstanding_max"], n)
+                elif op[0] == "done":
+                    i = op[1] % len(relays)
+                    for pid in open_posts[i]:
+                        posts[pid]["released"] = True
+                    open_posts[i] = []
+                    obs["releases"] += 1
+                    ev.post("%s_done" % relays[i]["event"])
+                    vm.advance(0.02)
+                else:
+                    vm.advance(op[1])
+            for i in range(len(relays)):
+                for pid in open_posts[i]:
+                    posts[pid]["released"] = True
+                open_posts[i] = []
+                ev.post("%s_done" % relays[i]["event"])
+                vm.advance(0.02)
+            vm.advance(HORIZONS["after_last_clear_s"])
+        except MpfCrash as e:
+            V("relay_player_complete", "crash_in_queue_relay_player", exc=repr(e)[:600])
+            return {"violations": viol, "clauses": clauses, "shape": "Pcrash", "nontrivial": False, "obs": obs}
+        qep_expected = {i: 0 for i in range(len(relays))}
+        for pid, P in posts.items():
+            clauses["relay_player_complete"] += 1
+            if P["qep"]:
+                qep_expected[P["i"]] += 1
+                continue
+            if P["cb"] != 1:
+                V("relay_player_complete", "queue_callback_never_ran" if P["cb"] == 0 else "queue_callback_ran_twice",
+                  pid=pid, event=relays[P["i"]]["event"], where=relays[P["i"]]["where"])
+        for i, n in qep_expected.items():
+            if n:
+                clauses["relay_player_complete"] += 1
+                if finished[i] != n:
+                    V("relay_player_complete", "queue_event_player_finished_event_count_wrong", event=relays[i]["event"],
+                      expected=n, got=finished[i])
+        clauses["queue_progress"] += 1
+        if ev._queue_tasks:
+            V("queue_progress", "queue_task_left_at_horizon", n=len(ev._queue_tasks))
+    shape = "P" + "".join(r["where"][1] + ("a" if r["pass_args"] else "n") for r in relays) + "|" + \
+        "".join(o[0][0] + (str(o[1]) if o[0] != "adv" else "") for o in case["ops"])
+    return {"violations": viol, "clauses": clauses, "shape": shape,
+            "nontrivial": obs["relays_outstanding_max"] >= 2 and obs["releases"] > 0, "obs": obs}
 
 
 # =============================================================================================
